@@ -42,7 +42,10 @@ PAYLOADS = {
     'attr': 'http://x/"onmouseover="zq9y',
     'script': '</script><script>zq9z()</script>',
     'amp': '&lt;b&gt; &amp;amp; &#x41;',
+    'surrdc': u'file caf\udce9.txt',       # what os.fsdecode() makes of undecodable file-name bytes
+    'surrd8': u'half \ud83d pair',
 }
+SURROGATE = ('surrdc', 'surrd8')
 NEUTRAL = {'attr': 'http://x/neutral'}
 ACCEPTS = [None, '', 'text/html', 'application/json', 'text/plain', 'application/xml', '*/*', 'text/*', 'application/*',
            'text/html;q=0.5, application/json;q=0.9', 'text/html;q=0, */*;q=0.5', 'application/xml;q=0.1, */*;q=0.9',
@@ -213,7 +216,7 @@ def check_body(acc, bad, res, fmt, fields, neutral_body, pkey, payload, carrier,
                 bad('html-structure-changed', 'tag structure differs from the neutral rendering at event %d: %r vs %r'
                     % (k, sk.events[k:k + 2], nk.events[k:k + 2]))
                 return
-        if pkey not in ('ctrl',) and carrier in ('detail', 'message', 'error_type'):
+        if pkey not in ('ctrl',) + SURROGATE and carrier in ('detail', 'message', 'error_type'):
             hay = ''.join(sk.text) + '\n' + '\n'.join(sk.attrvals)
             if payload not in hay:
                 bad('html-payload-missing', 'payload text is not present verbatim in the page text')
@@ -256,11 +259,11 @@ def run_case(acc, A, handler, kind, spec, accept, pkey, carrier, neutral_cache):
             h = dict(hdrs)
             q = ''
             if carrier == 'query':
-                q = 'p=' + urllib.parse.quote(pl.encode('utf-8'))
+                q = 'p=' + urllib.parse.quote(pl.encode('utf-8', 'surrogatepass'))
             if carrier == 'header':
-                h['X-Payload'] = pl.encode('utf-8').decode('latin-1').replace('\x0b', ' ').replace('\x01', ' ')
+                h['X-Payload'] = pl.encode('utf-8', 'surrogatepass').decode('latin-1').replace('\x0b', ' ').replace('\x01', ' ')
             if carrier == 'cookie':
-                h['Cookie'] = 'c=' + urllib.parse.quote(pl.encode('utf-8'))
+                h['Cookie'] = 'c=' + urllib.parse.quote(pl.encode('utf-8', 'surrogatepass'))
             return wsgi.call(app, '/boom', 'GET', query=q, headers=h), {}
         if kind == 'notfound':
             return wsgi.call(app, '/nf/' + pl.replace('/', '|'), 'GET', headers=hdrs), {}
@@ -329,7 +332,8 @@ def items(tier):
             for pkey in sorted(PAYLOADS):
                 out.append((handler, 'boom', None, (carrier, pkey)))
         for pkey in sorted(PAYLOADS):
-            out.append((handler, 'notfound', None, ('path', pkey)))
+            if pkey not in SURROGATE:
+                out.append((handler, 'notfound', None, ('path', pkey)))
     # a few classes under the debug handler as well
     for cname in ('Forbidden', 'NotFound', 'InternalServerError'):
         for field in ('detail', 'error_type'):
